@@ -1339,6 +1339,10 @@ class Collocator:
         if self.index is None:
             return False
 
+        if np.shape(lat) != np.shape(self.index.lat):
+            # np.allclose would broadcast a single point against all points
+            return False
+
         try:
             return np.allclose(lat, self.index.lat) \
                    & np.allclose(lon, self.index.lon)
